@@ -1,0 +1,199 @@
+//go:build verif
+
+package rescache
+
+import (
+	"encoding/json"
+	"fmt"
+	"sort"
+
+	"github.com/resgateio/resgate/server/codec"
+)
+
+// Verification hooks. Compiled only with the "verif" build tag.
+
+// VerifGate, when set, is called by a cache worker before each batch, and
+// by the eviction timer before the eviction re-check. It may block.
+var VerifGate func(kind, id string)
+
+// VerifNote, when set, receives linearisation-point notes.
+var VerifNote func(kind string, kv ...interface{})
+
+func verifGate(kind, id string) {
+	if f := VerifGate; f != nil {
+		f(kind, id)
+	}
+}
+
+func verifNote(kind string, kv ...interface{}) {
+	if f := VerifNote; f != nil {
+		f(kind, kv...)
+	}
+}
+
+func verifID(p interface{}) string {
+	return fmt.Sprintf("%p", p)
+}
+
+// VerifRSSnap is a read-only projection of a ResourceSubscription.
+type VerifRSSnap struct {
+	Query     string          `json:"query"`
+	State     int             `json:"state"`
+	Version   int             `json:"version"`
+	Resetting bool            `json:"resetting"`
+	Subs      int             `json:"subs"`
+	SubCIDs   []string        `json:"subcids"`
+	Links     []string        `json:"links"`
+	Value     json.RawMessage `json:"value,omitempty"`
+	IsBase    bool            `json:"isBase"`
+}
+
+// VerifEntrySnap is a read-only projection of an EventSubscription.
+type VerifEntrySnap struct {
+	Name     string        `json:"name"`
+	Count    int           `json:"count"`
+	MQSub    bool          `json:"mqSub"`
+	QLen     int           `json:"qlen"`
+	Locked   bool          `json:"locked"`
+	LockLen  int           `json:"lockLen"`
+	LockCap  int           `json:"lockCap"`
+	RS       []VerifRSSnap `json:"rs"`
+	LinkKeys []string      `json:"linkKeys"`
+}
+
+// VerifSnapshot returns a projection of the cache. It must only be called
+// while all gateway goroutines are blocked.
+func (c *Cache) VerifSnapshot() ([]VerifEntrySnap, int) {
+	c.mu.Lock()
+	defer c.mu.Unlock()
+	names := make([]string, 0, len(c.eventSubs))
+	for n := range c.eventSubs {
+		names = append(names, n)
+	}
+	sort.Strings(names)
+	out := make([]VerifEntrySnap, 0, len(names))
+	for _, n := range names {
+		e := c.eventSubs[n]
+		e.mu.Lock()
+		es := VerifEntrySnap{
+			Name:    n,
+			Count:   int(e.count),
+			MQSub:   e.mqSub != nil,
+			QLen:    len(e.queue),
+			Locked:  e.locks != nil,
+			LockLen: len(e.locks),
+			LockCap: cap(e.locks),
+		}
+		seen := map[*ResourceSubscription]bool{}
+		add := func(rs *ResourceSubscription, isBase bool) {
+			if rs == nil || seen[rs] {
+				return
+			}
+			seen[rs] = true
+			r := VerifRSSnap{
+				Query:     rs.query,
+				State:     int(rs.state),
+				Version:   int(rs.version),
+				Resetting: rs.resetting,
+				Subs:      len(rs.subs),
+				Links:     append([]string{}, rs.links...),
+				IsBase:    isBase,
+			}
+			for s := range rs.subs {
+				r.SubCIDs = append(r.SubCIDs, s.CID())
+			}
+			sort.Strings(r.SubCIDs)
+			switch rs.state {
+			case stateModel:
+				r.Value, _ = json.Marshal(rs.model.Values)
+			case stateCollection:
+				r.Value, _ = json.Marshal(rs.collection.Values)
+			}
+			es.RS = append(es.RS, r)
+		}
+		add(e.base, true)
+		qs := make([]string, 0, len(e.queries))
+		for q := range e.queries {
+			qs = append(qs, q)
+		}
+		sort.Strings(qs)
+		for _, q := range qs {
+			add(e.queries[q], false)
+		}
+		for q := range e.links {
+			es.LinkKeys = append(es.LinkKeys, q)
+		}
+		sort.Strings(es.LinkKeys)
+		e.mu.Unlock()
+		out = append(out, es)
+	}
+	n := 0
+	if c.unsubQueue != nil {
+		n = c.unsubQueue.Len()
+	}
+	return out, n
+}
+
+// VerifLCS exposes the collection diff routine. It returns the derived
+// events as (event, payload) pairs.
+func VerifLCS(a, b []codec.Value) [][2]string {
+	evs := lcs(a, b)
+	out := make([][2]string, len(evs))
+	for i, ev := range evs {
+		out[i] = [2]string{ev.Event, string(ev.Payload)}
+	}
+	return out
+}
+
+type verifSub struct {
+	events [][2]string
+}
+
+func (v *verifSub) CID() string                                { return "verif" }
+func (v *verifSub) Loaded(rs *ResourceSubscription, err error) {}
+func (v *verifSub) ResourceName() string                       { return "verif" }
+func (v *verifSub) ResourceQuery() string                      { return "" }
+func (v *verifSub) Reaccess(t *Throttle)                       {}
+func (v *verifSub) Event(ev *ResourceEvent) {
+	v.events = append(v.events, [2]string{ev.Event, string(ev.Payload)})
+}
+
+// VerifModelDiff runs the model reset diff on a detached resource with one
+// recording subscriber and returns the events derived and fanned out, as
+// (event, payload) pairs, together with the resulting cached model.
+func VerifModelDiff(old, new map[string]codec.Value) ([][2]string, string) {
+	rs := VerifDetachedRS("verif")
+	rs.state = stateModel
+	rs.model = &Model{Values: old}
+	vs := &verifSub{}
+	rs.subs[vs] = struct{}{}
+	rs.e.mu.Lock()
+	rs.processResetModel(new)
+	rs.e.mu.Unlock()
+	out, _ := json.Marshal(rs.model.Values)
+	return vs.events, string(out)
+}
+
+// VerifCollectionDiff runs the collection reset diff on a detached resource
+// with one recording subscriber and returns the events fanned out and the
+// resulting cached collection.
+func VerifCollectionDiff(old, new []codec.Value) ([][2]string, string) {
+	rs := VerifDetachedRS("verif")
+	rs.state = stateCollection
+	rs.collection = &Collection{Values: old}
+	vs := &verifSub{}
+	rs.subs[vs] = struct{}{}
+	rs.e.mu.Lock()
+	rs.processResetCollection(new)
+	rs.e.mu.Unlock()
+	out, _ := json.Marshal(rs.collection.Values)
+	return vs.events, string(out)
+}
+
+// VerifDetachedRS returns a ResourceSubscription on a detached
+// EventSubscription whose queue is never processed.
+func VerifDetachedRS(name string) *ResourceSubscription {
+	c := &Cache{inCh: make(chan *EventSubscription, 1024)}
+	e := &EventSubscription{ResourceName: name, cache: c, count: 1 << 30}
+	return newResourceSubscription(e, "")
+}
